@@ -6,7 +6,7 @@ import os
 import random
 import time
 
-from . import common, gen, queryfam, c10, worldfam, c18, c09, c15, c16
+from . import common, gen, queryfam, c10, worldfam, c18, c09, c15, c16, c20
 
 TRUSTED_BASE = [
     "Lean 4.33.0 kernel (axioms limited to propext, Classical.choice, Quot.sound; audited per theorem on every run)",
@@ -388,6 +388,17 @@ REGISTRY = {
         "correspondence": "Lmd.ptPlan / subRequest / spliceRow / ptData / ptStats vs BuildPassThroughResult / PassThroughQuery / PostProcessing / Less / CalculateFinalStats",
         "assumptions": ["the backend evaluates the forwarded filter and Stats itself (its replies are data of the step)", "Filter / Stats on LMD-side columns are forwarded verbatim and not generated",
                         "group-by keys are strings and small integers (Go's %v float formatting beyond 1e6 is not modelled)"],
+    },
+    "C20": {
+        "lean_modules": ["C20"],
+        "run": c20.run,
+        "rule": "a daemon started by the real initializeListeners / initializePeers (update loops and unix listeners running) against 1-4 scripted backends; 2-6 reloads per world, each running mainLoop's "
+                "reload sequence with an edited configuration: no-op, add, re-add, remove, rename, point a connection at another backend's socket or at a dead address, reorder, add / remove a listener, two edits at once; "
+                "a client hammers a listener that stays configured with a query on the unchanged backends during every reload; compared with Lmd.reloadPeers: order of the peer map, which Peer objects were kept / created, "
+                "names, sources, state, data, number of queries each peer ever sent, open listeners, removed listeners refuse, sites and hosts served through every configured listener, every answer read during the reload",
+        "correspondence": "Lmd.reloadPeers / freshEntry / initAllTables vs Daemon.initializePeers / initializeListeners / NewPeer / Nodes.Initialize",
+        "assumptions": ["the reload sequence is driven in-process (mainLoop's body between reading the configuration and waiting for signals); signal delivery and config file parsing are not exercised",
+                        "cluster mode (Nodes) and HTTP listeners are not exercised", "virtual clock frozen between steps: the update loops run but nothing is due"],
     },
     "C09": {
         "lean_modules": ["C09"],
